@@ -279,7 +279,9 @@ func (m *resourceManager) handleReadResource(ctx context.Context, req *JSONRPCRe
 	}
 
 	// Get resource
+	m.mu.RLock()
 	registeredResource, exists := m.resources[uri]
+	m.mu.RUnlock()
 	if !exists {
 		return newJSONRPCErrorResponse(
 			req.ID,
